@@ -59,6 +59,16 @@ def dt0_adaptive(
     y0, unravel = tree.ravel_pytree(y0)
     f0, _ = tree.ravel_pytree(f0)
 
+    # The tolerances are scalars or one number per (flattened) state
+    # component. Any other shape would broadcast 'scale' to a matrix
+    # and the norms below would silently be norms of something else.
+    for name, tol in (("atol", atol), ("rtol", rtol)):
+        if np.shape(tol) not in [(), np.shape(y0)]:
+            msg = f"The tolerance '{name}' has an unexpected shape."
+            msg += f" Expected: () or {np.shape(y0)}."
+            msg += f" Received: {np.shape(tol)}."
+            raise ValueError(msg)
+
     scale = atol + np.abs(y0) * rtol
     d0 = _vector_norm_no_overflow(y0 / scale)
     d1 = _vector_norm_no_overflow(f0 / scale)
